@@ -668,8 +668,14 @@ def build_cases(ctx, rnd):
         full = set()
         for name in sorted(byplant):
             full.add(rnd.choice(byplant[name]))
-        rest = [k for k in range(len(progs)) if k not in full]
-        chosen = set(rnd.sample(rest, min(len(rest), 400)))
+        # ... and every plant once in every class of position (top level / in a function / in a loop / nested / ...),
+        # since most rules depend on the class and a single random position would leave classes to chance
+        byclass = {}
+        for k, pr in enumerate(progs):
+            byclass.setdefault((pr[3]["name"], tuple(pr[2].attrs)), []).append(k)
+        classed = set(rnd.choice(byclass[key]) for key in sorted(byclass)) - full
+        rest = [k for k in range(len(progs)) if k not in full and k not in classed]
+        chosen = set(rnd.sample(rest, min(len(rest), 400))) | classed
     else:
         chosen = set(range(len(progs))) - full
     for k, (bname, text, slot, pl) in enumerate(progs):
